@@ -114,7 +114,7 @@ fn check(id: &str, args: &[String]) -> i32 {
     let h = Pg;
     cfg.secs = if only.as_deref() == Some("cache") { 0.0 } else if only.as_deref() == Some("net") { secs } else { secs * 0.7 };
     let r = run_batch(&h, &cfg);
-    if r.found.is_some() || r.harness_error.is_some() || only.as_deref() == Some("net") {
+    if r.found.is_some() || r.harness_error.is_some() || !r.unreproducible.is_empty() || only.as_deref() == Some("net") {
         return finish(&h, id, &tier, seed, &m, r, real_vs_stub(), assumptions());
     }
     engine::install_hooks();
